@@ -56,7 +56,23 @@ CLAIMED = {
              "acceptance oddities stated; Frame ↔ JSON value tree round trip incl. the nesting limit; after every history every stored frame is decodable (insert_frame refuses the rest).",
              design="5/C12", technique="Lean 4 proofs over executable models of the parsers/printers; differential execution of the real parse_ttl / from_query / to_query_string / serde Frame on generated and mutated inputs",
              note="W"),
+
+ "C13": dict(text="Theorems over the Lean Route model (match_route arm order + handle over the store model): every request is answered 200/204/400/404 (no dropped connection, no 5xx for a "
+             "request the store rejects); a request answered ≥400 leaves the stream unchanged; GET/DELETE/{id}, GET /, POST /{topic}, GET /head are exactly Store::get/remove/read/append/head; "
+             "head --follow is scoped to context and topic; route-table precedence; bad ids are 400. Raw requests are run against the real server and the model after every request.",
+             design="5/C13", technique="Lean 4 proofs over a model of the dispatcher; differential execution of raw HTTP requests (status, rendering, dropped/hung connection, partitions)",
+             note="H"),
+ "C10": dict(text="Theorems: POST /cas then GET returns the bytes under the reported hash; empty POST /cas rejected; POST /{topic} without body gives no hash, with a body the frame's hash is the "
+             "content's and the content is in the CAS in the state in which the frame first exists; content is never lost by later requests; the hash depends on the body alone. The run recomputes "
+             "sha256 independently, checks same-bytes-same-hash across entry points and reads content back right after each append.",
+             design="5/C10", technique="Lean 4 proofs over the Route model with a content map; differential execution incl. binary / 8 KiB-boundary / chunked bodies",
+             note="H"),
 }
+
+HTTP_NOTE = ("Trusted: Lean 4.33 kernel (axioms propext, Classical.choice, Quot.sound only); the hand model XsModel/Route.lean (inputs: hyper's parsed request, pre-classified xs-meta decoding, "
+             "decoded import body, sha256 of the body); hyper, base64, serde_json text layer, cacache. Tie: raw request bytes are sent to the real server over its unix socket and the same "
+             "request is given to the model; status, body rendering (frame / NDJSON / SSE / bytes / hash), connection fate and the three partitions are compared after every request; follow "
+             "streams are held open across appends and their tail compared with the subscription filter the model reports.")
 
 WIRE_NOTE = ("Trusted: Lean 4.33 kernel (axioms propext, Classical.choice, Quot.sound only); hand models XsModel/{Ttl,Query,Json}.lean of parse_ttl, uN::from_str, Display, "
              "Scru128Id text, form_urlencoded parse/serialize (plain subset proved, full decoder executed), serde field presence rules, serde_json's 128 recursion limit; the JSON text layer, "
@@ -77,7 +93,7 @@ def check_entry(pid):
         "replay_cmd_template": f"./check {pid} --replay {{path}}",
         "engine": "lean+xsw",
         "level_claimed": {"category": "proof", "text": c["text"], "design_ref": "DESIGN.md section " + c["design"]},
-        "level_note": FOLLOW_NOTE if c.get("note") == "B" else WIRE_NOTE if c.get("note") == "W" else c.get("note", STORE_NOTE),
+        "level_note": FOLLOW_NOTE if c.get("note") == "B" else WIRE_NOTE if c.get("note") == "W" else HTTP_NOTE if c.get("note") == "H" else c.get("note", STORE_NOTE),
         "technique": c["technique"],
     }
 
